@@ -30,7 +30,7 @@ META = {
     'assumptions': ['tie-free data (all pairwise distances different), as the property states',
                     'MPI semantics: with matching collectives the results do not depend on the arrival order of the ranks',
                     'exact real arithmetic'],
-    'outside': ['real MPI transport', 'mpi.io.load_*_as_striped file I/O under W>1 (W=1 in C15)', 'W beyond the bound'],
+    'outside': ['real MPI transport', 'load_h5_as_striped / load_trajectory_as_striped under W>1 (W=1 in C15); load_npy_as_striped runs on W<=3 ranks over the in-memory store', 'W beyond the bound'],
 }
 
 _PREP = {}
@@ -410,6 +410,72 @@ def convert_job(lengths, W):
     return path
 
 
+def striped_load_job(lens, W, stride=1):
+    """mpi.io.load_npy_as_striped on W ranks (in-memory .npy store): every rank reports the per-file lengths of the strided
+    trajectories, and rank r holds the concatenation of the strided files r, r+W, r+2W, ..."""
+    lens = list(lens)
+
+    def path(ctx):
+        from symnp import stubs_io
+        io = loader.load('enspara.mpi.io')
+        stubs_io.USE_FAKE[0] = True
+        stubs_io.reset()
+        rows = [[core.fresh_int('e') for _ in range(n)] for n in lens]
+        names = ['f%d.npy' % i for i in range(len(lens))]
+        for nm, r in zip(names, rows):
+            stubs_io.NPY[nm] = funcs.np_array(r, dtype=np.int64)
+        exc = None
+        try:
+            outs = spmd.WORLD.run(W, lambda r: io.load_npy_as_striped(names, stride=stride))
+        except (Exception, spmd.Deadlock) as e:
+            exc = e
+        finally:
+            stubs_io.USE_FAKE[0] = False
+
+        def expected(vals):
+            want = [r[::stride] for r in vals]
+            return [len(r) for r in want], [[c for f in want[rk::W] for c in f] for rk in range(W)]
+
+        def witness(model):
+            vals = [[int(ev(model, c)) for c in r] for r in rows]
+            out = {'inputs': {'lengths': lens, 'world_size': W, 'stride': stride}, 'skip_compare': True, 'out': None}
+            stubs_io.USE_FAKE[0] = True
+            stubs_io.reset()
+            for nm, r in zip(names, vals):
+                stubs_io.NPY[nm] = np.array(r, dtype=np.int64)
+            try:
+                with core.concrete_mode():
+                    try:
+                        o2 = spmd.WORLD.run(W, lambda r: io.load_npy_as_striped(names, stride=stride))
+                    except (Exception, spmd.Deadlock) as e:
+                        out.update(exception=repr(e), violated=['raises ' + type(e).__name__], signature='striped-load:exception:' + type(e).__name__)
+                        return out
+            finally:
+                stubs_io.USE_FAKE[0] = False
+            gl_w, loc_w = expected(vals)
+            bad = []
+            for rk, (gl, data) in enumerate(o2):
+                if [int(x) for x in gl] != gl_w:
+                    bad.append('rank %d: reported lengths are not the lengths of the strided trajectories' % rk)
+                if [int(x) for x in np.asarray(data).reshape(-1)] != loc_w[rk]:
+                    bad.append('rank %d: local block is not the concatenation of its strided files' % rk)
+            out['out'] = [[[int(x) for x in gl], np.asarray(d).tolist()] for gl, d in o2]
+            out['violated'] = bad[:3]
+            out['signature'] = 'striped-load:' + (bad[0].split(': ')[1] if bad else 'ok')
+            return out
+        if exc is not None:
+            return PathOut([('no-exception', False)], {}, witness, exc=type(exc).__name__, desc='raises %s: %s' % (type(exc).__name__, str(exc)[:100]))
+        gl_w, loc_w = expected(rows)
+        obs = []
+        for rk, (gl, data) in enumerate(outs):
+            obs.append(('rank %d: reported lengths are the lengths of the strided trajectories' % rk, [int(x) for x in gl] == gl_w))
+            got = list(cells(data))
+            obs.append(('rank %d: local block is the concatenation of its strided files' % rk,
+                        conj([x == y for x, y in zip(got, loc_w[rk])]) if len(got) == len(loc_w[rk]) else False))
+        return PathOut(obs, {}, witness, desc='load_npy_as_striped W=%d lengths=%s stride=%d' % (W, lens, stride))
+    return path
+
+
 def jobs(tier):
     J = []
     q = tier == 'quick'
@@ -437,6 +503,8 @@ def jobs(tier):
     # layouts that are not 'packed' (a later rank holds more than an earlier one): only the searched index table is right there
     for W, ll in ((3, (3, 2, 3)), (3, (2, 1, 2)), (2, (1, 2))) + (() if q else ((3, (1, 1, 3)), (4, (2, 1, 2, 1)))):
         add('ops_job', 'ops.randind[W=%d,%s]' % (W, list(ll)), W=W, local_lens=ll, what='randind')
+    for lens_, W_, st_ in (((3, 2), 1, 2), ((3, 4, 2), 2, 2), ((3, 2, 3, 1), 2, 2), ((2, 3), 2, 1), ((5, 5, 3), 1, 2)) + (() if q else (((3, 4, 6, 5, 4), 2, 2), ((4, 3, 2, 5), 3, 3))):
+        add('striped_load_job', 'striped-npy-load[%s,W=%d,stride=%d]' % (list(lens_), W_, st_), lens=lens_, W=W_, stride=st_)
     for W, ll in ((2, (2, 2)), (2, (2, 1)), (3, (1, 1, 1)), (3, (2, 2, 1))):
         add('ops_job', 'ops.assemble[W=%d,%s]' % (W, list(ll)), W=W, local_lens=ll, what='assemble')
     return J
